@@ -66,6 +66,7 @@ inline void sched_yield_hook(int why) {
 }
 inline void sched_task_main(int t) {
     Sched& S = *g_sched;
+    poison_stack_deep(24 * 1024);   // what the previous world's task left on this stack
     S.body(t);
     S.done[t] = true;
     for (;;) {
